@@ -350,6 +350,8 @@ pub struct ReadLog {
     pub truncated: bool,
     pub corrupted: bool,
     pub reads_after_error: usize,
+    /// the bytes of the file as the disk would deliver them to a reader that reads to the end
+    pub effective: Option<Vec<u8>>,
 }
 
 struct FaultyReader {
@@ -464,6 +466,7 @@ pub fn install_disk(
                 l.corrupted = true;
             }
         }
+        l.effective = Some(data.clone());
         drop(l);
         Ok(Box::new(FaultyReader {
             data,
